@@ -16,7 +16,7 @@ pub struct SubschemaValidation {
     pub if_schema: Option<Box<JSchema>>, pub then_schema: Option<Box<JSchema>>, pub else_schema: Option<Box<JSchema>>,
 }
 #[verifier::external_body] pub struct NumberValidation { _p: u8 }
-#[verifier::external_body] pub struct StringValidation { _p: u8 }
+pub struct StringValidation { pub max_length: Option<u32>, pub min_length: Option<u32>, pub pattern: Option<String> }
 pub struct ArrayValidation {
     pub items: Option<SingleOrVec<JSchema>>, pub additional_items: Option<Box<JSchema>>, pub max_items: Option<u32>, pub min_items: Option<u32>,
     pub unique_items: Option<bool>, pub contains: Option<Box<JSchema>>,
@@ -76,10 +76,12 @@ impl Default for SchemaData {
 #[verifier::external_body] pub struct AnySchema { _p: u8 }
 pub uninterp spec fn any_default() -> AnySchema;
 impl Default for AnySchema { #[verifier::external_body] fn default() -> (r: AnySchema) ensures r == any_default() { unimplemented!() } }
-pub struct StringType { pub format: Option<OpaqueV>, pub pattern: Option<String>, pub enumeration: Vec<Option<String>>, pub min_length: Option<usize>, pub max_length: Option<usize> }
+pub enum VariantOrUnknownOrEmpty<T> { Item(T), Unknown(String), Empty }
+pub enum StringFormat { Date, DateTime, Password, Byte, Binary }
+pub struct StringType { pub format: VariantOrUnknownOrEmpty<StringFormat>, pub pattern: Option<String>, pub enumeration: Vec<Option<String>>, pub min_length: Option<usize>, pub max_length: Option<usize> }
 impl Default for StringType {
     #[verifier::external_body]
-    fn default() -> (r: StringType) ensures r.format is None, r.pattern is None, r.enumeration@.len() == 0, r.min_length is None, r.max_length is None { unimplemented!() }
+    fn default() -> (r: StringType) ensures r.format is Empty, r.pattern is None, r.enumeration@.len() == 0, r.min_length is None, r.max_length is None { unimplemented!() }
 }
 pub struct BooleanType { pub enumeration: Vec<Option<bool>> }
 pub struct ArrayType { pub items: Option<ReferenceOr<Box<OSchema>>>, pub min_items: Option<usize>, pub max_items: Option<usize>, pub unique_items: bool }
